@@ -75,6 +75,9 @@ func classifyErr(err error) string {
 		{"takeRateClaimInterval must be", "invalid_interval"},
 		{"slashed fraction must be", "invalid_fraction"},
 		{"invalid (zero) ex-rate", "invalid_ex_rate"},
+		{"invalid shares amount", "invalid_shares"},
+		{"not enough delegation shares", "not_enough_shares"},
+		{"no delegation for (address, validator) tuple", "no_delegation"},
 	}
 	for _, e := range table {
 		if strings.Contains(s, e.sub) {
@@ -106,7 +109,11 @@ func classifyPanic(r interface{}) string {
 }
 
 // protect runs f, converting a Go panic into a result class.
+// lastDetail: the error text / panic value of the most recent protect() call (read by classifiers that need amounts)
+var lastDetail string
+
 func protect(f func() error) (res string, detail string) {
+	defer func() { lastDetail = detail }()
 	defer func() {
 		if r := recover(); r != nil {
 			res = classifyPanic(r)
